@@ -14,6 +14,11 @@
 use std::collections::{HashMap, HashSet};
 
 pub const ANY: u64 = u64::MAX;
+pub const PATH_FAST: u8 = 1;
+pub const PATH_RETURNED: u8 = 2;
+pub const PATH_PREPAID: u8 = 4;
+pub const PATH_FB_CONFIRMED: u8 = 8;
+pub const PATH_FB_HELPED: u8 = 16;
 pub const OPEN: u64 = u64::MAX;
 
 #[derive(Copy, Clone, Debug, PartialEq, Eq, serde::Serialize, serde::Deserialize)]
@@ -39,6 +44,9 @@ pub struct Op {
     pub ret_addr: u64,
     pub inv: u64,
     pub resp: u64,
+    /// Path flags of the load inside the call (PATH_*); not used by the checker.
+    #[serde(default)]
+    pub path: u8,
 }
 
 impl Op {
@@ -325,7 +333,7 @@ mod tests {
     use super::*;
 
     fn op(t: u8, kind: Kind, a: u64, ret: u64, inv: u64, resp: u64) -> Op {
-        Op { t, c: 0, kind, a, cur_addr: 0, ret, ret_addr: ret, inv, resp }
+        Op { t, c: 0, kind, a, cur_addr: 0, ret, ret_addr: ret, inv, resp, path: 0 }
     }
 
     fn am() -> HashMap<u64, u64> {
@@ -426,7 +434,7 @@ mod tests {
                 };
                 let a = 10 + k as u64;
                 let ret = if rng.chance(1, 2) { 1 } else { 10 + rng.below(n as u64) };
-                threads[t].push(Op { t: t as u8, c: 0, kind, a, cur_addr: 0, ret, ret_addr: ret, inv: inv * 2, resp: resp * 2 + 1 });
+                threads[t].push(Op { t: t as u8, c: 0, kind, a, cur_addr: 0, ret, ret_addr: ret, inv: inv * 2, resp: resp * 2 + 1, path: 0 });
             }
             let v = check(&threads, 1, None, &am(), 100000);
             let b = brute(&threads, 1);
